@@ -19,7 +19,7 @@ macro "pr_auto" : tactic => `(tactic| repeat (first
   | with_reducible apply pr_flush | with_reducible apply pr_sendPacket | with_reducible apply pr_sockOnDrain
   | with_reducible apply pr_trEmitDrain | with_reducible apply pr_trEmitReady
   | with_reducible apply pr_candOnPacket | with_reducible apply pr_sockOnPacket | with_reducible apply pr_trEmitPacket
-  | (with_reducible refine pr_setSockSame _ _ ?_ ?_; (intro s; exact ⟨rfl, rfl, rfl, rfl, rfl⟩))
+  | (with_reducible refine pr_setSockSame _ _ ?_ ?_; (intro s; exact ⟨rfl, rfl, rfl, rfl, rfl, rfl, rfl, rfl, by first | exact id | (intro h; cases h)⟩))
   | (with_reducible refine pr_setReqKeep _ _ ?_ ?_; (intro q; rfl))
   | split))
 
@@ -102,7 +102,7 @@ theorem pr_openAnnounce {w0 w : World} (sid : Nat) (trName : String) (proto : Na
       if proto = 3 then { s with pingTimeoutDue := some (w.now + w.o.I + w.o.T) }
       else { s with pingIntervalDue := some (w.now + w.o.I) }) := by
     apply sameView_setSock
-    split <;> exact ⟨rfl, rfl, rfl, rfl, rfl⟩
+    split <;> exact ⟨rfl, rfl, rfl, rfl, rfl, rfl, rfl, rfl, by first | exact id | (intro h; cases h)⟩
   generalize (w.setSock sid fun s =>
       if proto = 3 then { s with pingTimeoutDue := some (w.now + w.o.I + w.o.T) }
       else { s with pingIntervalDue := some (w.now + w.o.I) }) = w1 at v ⊢
@@ -110,7 +110,7 @@ theorem pr_openAnnounce {w0 w : World} (sid : Nat) (trName : String) (proto : Na
   have hnew1 : sid ∉ w1.registry := by rw [v.registry]; exact hnew
   have hopen1 : (w1.sock sid).rs = .open_ := by rw [(v.sock sid).rs]; exact hopen
   have hnc1 : ¬ closedW w1 sid := by unfold closedW; rw [hopen1]; simp
-  apply pr_sev _ _ rfl
+  apply pr_sev _ _ rfl rfl
   · have : ({ w1 with registry := w1.registry ++ [sid] } : World).sock sid = w1.sock sid := rfl
     simp [closedW, this, hopen1]
   · exact (pr_sv h v).trans (pres_register w1 sid hsz1 hnew1 hnc1)
@@ -127,7 +127,7 @@ theorem pr_openSession {w0 w : World} (ti proto : Nat) (h : Pres w0 w) : Pres w0
     have pB : Pres w (({ w with socks := w.socks.push { proto, tr := ti } } : World).setTr ti fun t =>
         { t with role := .current w.socks.size, owner := w.socks.size }) := by
       apply pr_setTr
-      exact pres_pushSock w { proto, tr := ti } rfl rfl rfl
+      exact pres_pushSock w { proto, tr := ti } rfl rfl rfl rfl rfl rfl rfl rfl
     have zB : (({ w with socks := w.socks.push { proto, tr := ti } } : World).setTr ti fun t =>
         { t with role := .current w.socks.size, owner := w.socks.size }).socks.size = w.socks.size + 1 := by simp
     have rB : (({ w with socks := w.socks.push { proto, tr := ti } } : World).setTr ti fun t =>
@@ -135,13 +135,17 @@ theorem pr_openSession {w0 w : World} (ti proto : Nat) (h : Pres w0 w) : Pres w0
     generalize (({ w with socks := w.socks.push { proto, tr := ti } } : World).setTr ti fun t =>
         { t with role := .current w.socks.size, owner := w.socks.size }) = wB at sB pB zB rB ⊢
     have pC : Pres w (wB.setSock w.socks.size fun s => { s with rs := .open_ }) := by
-      apply pr_setSock _ _ _ _ rfl rfl _ pB
+      apply pr_setSock _ _ _ _ rfl rfl _ _ pB
       · rw [sB]; simp [RS.rank]
       · rw [sB]; simp
       · intro _ _; rw [sB]
-        refine ⟨fun hc => ?_, fun hd => ?_⟩
+        refine ⟨fun hc => ?_, fun hd => ?_, fun hd => ?_⟩
         · cases hc
         · cases hd
+        · cases hd
+      · intro _ a
+        refine a.congr ?_ rfl rfl rfl rfl
+        rw [sB]; simp
     have sC : ((wB.setSock w.socks.size fun s => { s with rs := .open_ }).sock w.socks.size) =
         { proto, tr := ti, rs := .open_ } := by
       rw [sock_setSock]; simp [zB, sB]
@@ -236,6 +240,12 @@ theorem pr_abortReq {w0 w : World} (r : Nat) (h : Pres w0 w) : Pres w0 (abortReq
   unfold abortReq; try dsimp only
   pr_auto
 
+theorem lookup_some (w : World) (sid : Nat) (s : Sock) (h : lookup w sid = some s) : s = w.sock sid := by
+  unfold lookup at h
+  split at h
+  · cases h; rfl
+  · cases h
+
 theorem pr_wsCandidate {w0 w : World} (sid proto : Nat) (b64 : Bool) (h : Pres w0 w) : Pres w0 (wsCandidate w sid proto b64) := by
   unfold wsCandidate; try dsimp only
   have h1 : Pres w0 { w with conns := w.conns.push {} } := pr_fields _ h
@@ -245,9 +255,18 @@ theorem pr_wsCandidate {w0 w : World} (sid proto : Nat) (b64 : Bool) (h : Pres w
     · pr_auto
     · split
       · pr_auto
-      · refine pr_setSockSame _ _ ?_ ?_
-        · intro s; exact ⟨rfl, rfl, rfl, rfl, rfl⟩
-        exact pr_fields _ h
+      · rename_i s0 hl hg
+        have hs0 := lookup_some _ _ _ hl
+        have hupf : s0.upgraded = false := by
+          cases hu : s0.upgraded with
+          | false => rfl
+          | true => exact absurd (Or.inr hu) hg
+        apply pr_setSock _ _ (Nat.le_refl _) Iff.rfl rfl rfl _ _ (pr_fields _ h1)
+        · intro _ o
+          refine ⟨o.cb, o.dc, fun _ => ?_⟩
+          show (World.sock _ sid).upgraded = false
+          rw [← hupf, hs0]; rfl
+        · intro _ a; exact a.congr Iff.rfl rfl rfl rfl rfl
 
 theorem pr_wtCandidate {w0 w : World} (sid : Nat) (h : Pres w0 w) : Pres w0 (wtCandidate w sid) := by
   unfold wtCandidate; try dsimp only
@@ -256,9 +275,18 @@ theorem pr_wtCandidate {w0 w : World} (sid : Nat) (h : Pres w0 w) : Pres w0 (wtC
   · pr_auto
   · split
     · pr_auto
-    · refine pr_setSockSame _ _ ?_ ?_
-      · intro s; exact ⟨rfl, rfl, rfl, rfl, rfl⟩
-      exact pr_fields _ h1
+    · rename_i s0 hl hg
+      have hs0 := lookup_some _ _ _ hl
+      have hupf : s0.upgraded = false := by
+        cases hu : s0.upgraded with
+        | false => rfl
+        | true => exact absurd (Or.inr hu) hg
+      apply pr_setSock _ _ (Nat.le_refl _) Iff.rfl rfl rfl _ _ (pr_fields _ h1)
+      · intro _ o
+        refine ⟨o.cb, o.dc, fun _ => ?_⟩
+        show (World.sock _ sid).upgraded = false
+        rw [← hupf, hs0]; rfl
+      · intro _ a; exact a.congr Iff.rfl rfl rfl rfl rfl
 
 theorem pr_wsFrame {w0 w : World} (c : Nat) (m : Msg) (h : Pres w0 w) : Pres w0 (wsFrame w c m).1 := by
   unfold wsFrame; try dsimp only
@@ -285,17 +313,21 @@ theorem pr_appClose {w0 w : World} (sid : Nat) (d : Bool) (h : Pres w0 w) : Pres
     · rename_i hopen
       have hopen : (w.sock sid).rs = .open_ := Classical.not_not.mp hopen
       have p1 : Pres w0 (w.setSock sid fun s => { s with rs := .closing }) := by
-        apply pr_setSock _ _ _ _ rfl rfl _ h
+        apply pr_setSock _ _ _ _ rfl rfl _ _ h
         · rw [hopen]; simp [RS.rank]
         · simp [hopen]
         · intro _ o
-          refine ⟨fun hc => ?_, fun _ => Or.inl rfl⟩
+          refine ⟨fun hc => ?_, fun _ => Or.inl rfl, o.cu⟩
           cases hc
+        · intro _ a
+          refine a.congr ?_ rfl rfl rfl rfl
+          simp [hopen]
       split
-      · apply pr_setSock _ _ (Nat.le_refl _) Iff.rfl rfl rfl _ p1
-        intro hz o
-        refine ⟨o.cb, fun _ => Or.inl ?_⟩
-        rw [sock_setSock]; simp at hz; simp [hz]
+      · apply pr_setSock _ _ (Nat.le_refl _) Iff.rfl rfl rfl _ _ p1
+        · intro hz o
+          refine ⟨o.cb, fun _ => Or.inl ?_, o.cu⟩
+          rw [sock_setSock]; simp at hz; simp [hz]
+        · intro _ a; exact a.congr Iff.rfl rfl rfl rfl rfl
       · exact pr_closeTransport _ _ p1
 
 theorem pr_shutdown {w0 w : World} (h : Pres w0 w) : Pres w0 (shutdown w) := by
@@ -322,12 +354,22 @@ theorem pr_fireTimer {w0 w : World} (id : TimerId) (h : Pres w0 w) : Pres w0 (fi
   | pingInterval sid =>
     simp only [fireTimer]
     refine pr_setSockSame _ _ ?_ ?_
-    · intro s; exact ⟨rfl, rfl, rfl, rfl, rfl⟩
+    · intro s; exact ⟨rfl, rfl, rfl, rfl, rfl, rfl, rfl, rfl, by first | exact id | (intro h; cases h)⟩
     pr_auto
   | pingTimeout sid => simp only [fireTimer]; pr_auto
   | closeTimer ti => simp only [fireTimer]; pr_auto
   | upgradeTimeout sid => simp only [fireTimer]; pr_auto
-  | check sid => simp only [fireTimer]; pr_auto
+  | check sid =>
+    simp only [fireTimer]
+    split
+    · rename_i c hc
+      try dsimp only
+      have p1 : Pres w0 (w.setSock sid fun s => { s with cand := some { c with checkDue := some (w.now + checkPeriod) } }) :=
+        pr_sv h (sameView_setSock _ _ _ ⟨rfl, rfl, rfl, rfl, rfl, rfl, rfl, rfl, fun _ => by rw [hc]; rfl⟩)
+      split
+      · exact pr_trSend _ _ p1
+      · exact p1
+    · exact h
 
 theorem pr_advance {w0 w : World} (fuel target : Nat) (h : Pres w0 w) : Pres w0 (advance fuel w target) := by
   induction fuel generalizing w with
